@@ -75,6 +75,7 @@ fn alphabet(kind: Kind) -> Vec<Val> {
         Kind::Boolean => vec![Val::Boolean(true), Val::Boolean(false)],
         Kind::BigInt => vec![Val::BigInt(9), Val::BigInt(-1), Val::BigInt(i64::MAX), Val::BigInt(0)],
         Kind::Double => vec![Val::Double(1.5f64.to_bits()), Val::Double((-0.0f64).to_bits()), Val::Double(f64::NAN.to_bits()), Val::Double(0)],
+        Kind::Udt => unreachable!("nested values come from pick_leaf / pick_cell"),
         Kind::ListInt => vec![Val::ListInt(vec![1, 2]), Val::ListInt(vec![-1]), Val::ListInt(vec![i32::MAX, 0, i32::MIN]), Val::ListInt(vec![])],
     }
 }
@@ -83,6 +84,90 @@ fn alphabet(kind: Kind) -> Vec<Val> {
 fn pick(kind: Kind, id: usize, row: usize) -> Val {
     let a = alphabet(kind);
     a[(row + id) % a.len()].clone()
+}
+
+/// struct-side value of a leaf (nested struct: every leaf of the nested model, skipped ones included)
+fn pick_leaf(l: &rb::Leaf, id: usize, row: usize) -> Val {
+    match &l.nested {
+        Some(nm) => Val::Udt(nm.leaves.iter().enumerate().map(|(i, il)| pick_leaf(il, id + i + 1, row)).collect()),
+        None => pick(l.kind, id, row),
+    }
+}
+
+/// database-side content of a field (nested UDT: one cell per nested field)
+fn pick_cell(f: &DbField, row: usize) -> Cell {
+    match f.kind {
+        Kind::Udt => Cell::Udt(f.fields.iter().map(|g| pick_cell(g, row + 1)).collect()),
+        k => Cell::Value(pick(k, name_id(&f.name), row)),
+    }
+}
+
+/// the database field a leaf binds to when the database declares exactly what the struct declares
+fn leaf_dbfield(l: &rb::Leaf) -> DbField {
+    DbField {
+        name: l.db_name.clone(),
+        kind: l.kind,
+        fields: l.nested.as_ref().map(|nm| nm.leaves.iter().filter(|x| !x.skip).map(leaf_dbfield).collect()).unwrap_or_default(),
+    }
+}
+
+/// Further struct values: every non-empty null pattern of the Option fields of each nested struct value.
+fn nested_ser_variants(m: &rb::Model, base: &[Val]) -> Vec<Vec<Val>> {
+    let mut out = Vec::new();
+    for (i, l) in m.leaves.iter().enumerate() {
+        let (Some(nm), Val::Udt(inner)) = (&l.nested, &base[i]) else { continue };
+        let optional: Vec<usize> = (0..nm.leaves.len()).filter(|k| nm.leaves[*k].optional).collect();
+        let mut inner_variants: Vec<Vec<Val>> = Vec::new();
+        for mask in 1..(1u32 << optional.len()) {
+            let mut v = inner.clone();
+            for (bit, &li) in optional.iter().enumerate() {
+                if mask & (1 << bit) != 0 {
+                    v[li] = Val::Null;
+                }
+            }
+            inner_variants.push(v);
+        }
+        inner_variants.extend(nested_ser_variants(nm, inner));
+        for v in inner_variants {
+            let mut vals = base.to_vec();
+            vals[i] = Val::Udt(v);
+            out.push(vals);
+        }
+    }
+    out
+}
+
+/// Further database contents: inside each nested UDT cell every null pattern and every truncation point.
+fn nested_de_variants(db: &[DbField], base: &[Cell]) -> Vec<Vec<Cell>> {
+    let mut out = Vec::new();
+    for (j, f) in db.iter().enumerate() {
+        let Cell::Udt(inner) = &base[j] else { continue };
+        let mut inner_variants: Vec<Vec<Cell>> = Vec::new();
+        let bits = inner.len().min(6);
+        for mask in 1..(1u32 << bits) {
+            let mut v = inner.clone();
+            for k in 0..bits {
+                if mask & (1 << k) != 0 {
+                    v[k] = Cell::Null;
+                }
+            }
+            inner_variants.push(v);
+        }
+        for cut in 0..inner.len() {
+            let mut v = inner.clone();
+            for c in v.iter_mut().skip(cut) {
+                *c = Cell::Absent;
+            }
+            inner_variants.push(v);
+        }
+        inner_variants.extend(nested_de_variants(&f.fields, inner));
+        for v in inner_variants {
+            let mut cells = base.to_vec();
+            cells[j] = Cell::Udt(v);
+            out.push(cells);
+        }
+    }
+    out
 }
 
 fn name_id(name: &str) -> usize {
@@ -118,6 +203,8 @@ struct ShapeBounds {
     two_extras_max_missing: usize,
     /// one extra is inserted into bases that miss at most this many fields
     one_extra_max_missing: usize,
+    /// two extras in both relative orders (x1 before x2 and x2 before x1)
+    two_extras_both_orders: bool,
     /// retype variants on every permutation (else identity + reverse only)
     retype_all_perms: bool,
 }
@@ -125,18 +212,21 @@ struct ShapeBounds {
 /// All database shapes for a struct whose active (non-skip) leaves are `fields` (declared order).
 /// Simplest first: nothing missing, declared order, no extras.
 fn shapes(e: &Entry, b: &ShapeBounds) -> Vec<Vec<DbField>> {
-    let m = &e.model;
-    let fields: Vec<DbField> = m.leaves.iter().filter(|l| !l.skip).map(|l| DbField { name: l.db_name.clone(), kind: l.kind }).collect();
+    shapes_model(&e.model, b)
+}
+
+fn shapes_model(m: &rb::Model, b: &ShapeBounds) -> Vec<Vec<DbField>> {
+    let fields: Vec<DbField> = m.leaves.iter().filter(|l| !l.skip).map(leaf_dbfield).collect();
     let n = fields.len();
     // extra candidates for the one-extra dimension
-    let mut extras1: Vec<DbField> = vec![DbField { name: "x1".into(), kind: fields.first().map(|f| f.kind).unwrap_or(Kind::Int) }];
+    let mut extras1: Vec<DbField> = vec![DbField::leaf("x1", fields.first().map(|f| f.kind).filter(|k| *k != Kind::Udt).unwrap_or(Kind::Int))];
     for l in &m.leaves {
         if l.skip {
             // a database field that carries the name of a skipped Rust field
-            extras1.push(DbField { name: l.db_name.clone(), kind: l.kind });
+            extras1.push(leaf_dbfield(l));
         } else if l.db_name != l.rust_name && !m.leaves.iter().any(|o| !o.skip && o.db_name == l.rust_name) {
             // the Rust name of a renamed field (must not be bound)
-            extras1.push(DbField { name: l.rust_name.clone(), kind: l.kind });
+            extras1.push(DbField { name: l.rust_name.clone(), ..leaf_dbfield(l) });
         }
     }
     let x1 = extras1[0].clone();
@@ -144,14 +234,14 @@ fn shapes(e: &Entry, b: &ShapeBounds) -> Vec<Vec<DbField>> {
     if let Some(f0) = fields.first() {
         let flipped: String = f0.name.chars().map(|c| if c.is_lowercase() { c.to_ascii_uppercase() } else { c.to_ascii_lowercase() }).collect();
         if flipped != f0.name && !m.leaves.iter().any(|l| l.db_name == flipped || l.rust_name == flipped) {
-            extras1.push(DbField { name: flipped, kind: f0.kind });
+            extras1.push(DbField { name: flipped, ..f0.clone() });
         }
     }
     // a second database field carrying the name of the first declared field (documentation silent: no panic)
     if let Some(f0) = fields.first() {
         extras1.push(f0.clone());
     }
-    let x2 = DbField { name: "x2".into(), kind: fields.last().map(|f| f.kind).unwrap_or(Kind::Text) };
+    let x2 = DbField::leaf("x2", fields.last().map(|f| f.kind).filter(|k| *k != Kind::Udt).unwrap_or(Kind::Text));
     let mut out: Vec<Vec<DbField>> = Vec::new();
     let mut seen = std::collections::HashSet::new();
     let mut push = |s: Vec<DbField>, out: &mut Vec<Vec<DbField>>| {
@@ -185,7 +275,10 @@ fn shapes(e: &Entry, b: &ShapeBounds) -> Vec<Vec<DbField>> {
                         for p in 0..=base.len() {
                             for q in p..=base.len() {
                                 // x1 before x2 and x2 before x1
-                                for (first, second) in [(&x1, &x2), (&x2, &x1)] {
+                                for (k, (first, second)) in [(&x1, &x2), (&x2, &x1)].into_iter().enumerate() {
+                                    if k == 1 && !b.two_extras_both_orders {
+                                        continue;
+                                    }
                                     let mut s = base.clone();
                                     s.insert(q, second.clone());
                                     s.insert(p, first.clone());
@@ -208,9 +301,28 @@ fn shapes(e: &Entry, b: &ShapeBounds) -> Vec<Vec<DbField>> {
         for pos in 0..n {
             let mut s: Vec<DbField> = perm.iter().map(|&i| fields[i].clone()).collect();
             let k = s[pos].kind;
-            let ki = Kind::ALL.iter().position(|x| *x == k).unwrap();
-            s[pos].kind = Kind::ALL[(ki + 1) % Kind::ALL.len()];
+            s[pos].kind = match Kind::ALL.iter().position(|x| *x == k) {
+                Some(ki) => Kind::ALL[(ki + 1) % Kind::ALL.len()],
+                None => Kind::Int, // nested UDT offered as int
+            };
+            s[pos].fields.clear();
             push(s, &mut out);
+        }
+    }
+    // nested UDTs: every shape of the nested field list, under the declared and the reversed outer order
+    for (pos, f) in fields.iter().enumerate() {
+        let Some(l) = m.leaves.iter().filter(|l| !l.skip).nth(pos) else { continue };
+        let Some(nm) = &l.nested else { continue };
+        let _ = f;
+        for inner in shapes_model(nm, b) {
+            for reversed in [false, true] {
+                let mut s = fields.clone();
+                s[pos].fields = inner.clone();
+                if reversed {
+                    s.reverse();
+                }
+                push(s, &mut out);
+            }
         }
     }
     out
@@ -238,7 +350,7 @@ fn run_ser_op(e: &Entry, op: Op, p: &Prepared, vals: &[Val]) -> Out<Vec<u8>> {
 
 fn run_de_op(e: &Entry, op: Op, p: &Prepared, body: &Bytes) -> Out<Vec<Val>> {
     match (op, p) {
-        (Op::DeValue, Prepared::Udt(t)) => (e.de_value.unwrap())(t, body),
+        (Op::DeValue, Prepared::Udt(t)) => (e.de_value.unwrap())(t, Some(body)),
         (Op::DeRow, Prepared::Row(s)) => (e.de_row.unwrap())(s, body),
         _ => unreachable!(),
     }
@@ -322,7 +434,7 @@ impl Tally {
 }
 
 fn declared_shape(e: &Entry) -> Vec<DbField> {
-    e.model.leaves.iter().filter(|l| !l.skip).map(|l| DbField { name: l.db_name.clone(), kind: l.kind }).collect()
+    e.model.leaves.iter().filter(|l| !l.skip).map(leaf_dbfield).collect()
 }
 
 fn ser_case(r: &Ctx, t: &mut Tally, e: &Entry, op: Op, db: &[DbField], p: &Prepared, vals: &[Val], verbose: bool) {
@@ -363,7 +475,7 @@ fn ser_case(r: &Ctx, t: &mut Tally, e: &Entry, op: Op, db: &[DbField], p: &Prepa
                     return;
                 }
             };
-            if let Err(diff) = rb::compare_ser_cells(&exp, &got) {
+            if let Err(diff) = rb::compare_ser_cells(&exp, db, &got) {
                 r.violation(&key("wrong-cells"), || format!("{} of {} against database {:?} with values {:?}: {diff}", op.name(), e.name, db, vals), &case);
                 return;
             }
@@ -372,16 +484,8 @@ fn ser_case(r: &Ctx, t: &mut Tally, e: &Entry, op: Op, db: &[DbField], p: &Prepa
             }
             // value -> bytes -> value through the same struct's deserializer
             if let Some(dop) = de_partner(e, op) {
-                let cells: Vec<Cell> = (0..db.len())
-                    .map(|j| match got.get(j) {
-                        None => Cell::Absent,
-                        Some(None) => Cell::Null,
-                        Some(Some(b)) => match Val::decode(db[j].kind, Some(b)) {
-                            Ok(v) => Cell::Value(v),
-                            Err(_) => Cell::Null, // unreachable: compare_ser_cells passed
-                        },
-                    })
-                    .collect();
+                // reference decoder; cannot fail after compare_ser_cells passed
+                let Ok(cells) = rb::cells_from_body(db, bytes) else { return };
                 let dexp = rb::expect_de(&e.model, db, &cells, dop.target());
                 let back = run_de_op(e, dop, p, &Bytes::from(bytes.clone()));
                 t.add(format!("roundtrip|{}|{}|{}", flavor_tag(e), verdict_tag(dexp.verdict), back.class()), 1);
@@ -444,6 +548,26 @@ fn de_case(r: &Ctx, t: &mut Tally, e: &Entry, op: Op, db: &[DbField], p: &Prepar
     }
 }
 
+/// The UDT value itself is null and the target is the (non-Option) derived struct: there is no value to
+/// build the struct from, so anything but an error is wrong.
+fn null_udt_case(r: &Ctx, t: &mut Tally, e: &Entry, db: &[DbField], p: &Prepared, verbose: bool) {
+    let Prepared::Udt(typ) = p else { return };
+    let out = (e.de_value.unwrap())(typ, None);
+    t.evals += 1;
+    t.add(format!("de-value|null-udt|{}", out.class()), 1);
+    let case = || json!({"struct": e.name, "op": "de-value", "db": db_to_json(db), "null_udt": true});
+    if verbose {
+        println!("struct   {}", e.source);
+        println!("database {:?} ; the UDT value is null", db.iter().map(|f| format!("{} {}", f.name, f.kind.name())).collect::<Vec<_>>());
+        println!("driver   {out:?}");
+    }
+    match &out {
+        Out::Panic(pn) => r.violation(&format!("de-value:{}:panic", e.name), || format!("de-value of {} from a null UDT panicked: {pn}", e.name), &case),
+        Out::Ok(v) => r.violation(&format!("de-value:{}:null-udt-accepted", e.name), || format!("de-value of {} from a null UDT value produced {:?}", e.name, v), &case),
+        Out::Err(..) => {}
+    }
+}
+
 struct Bounds {
     shape: ShapeBounds,
     value_rows: usize,
@@ -475,7 +599,7 @@ fn shape_block(r: &Ctx, e: &Entry, op: Op, db: &[DbField], b: &Bounds) {
     if op.is_ser() {
         let optional: Vec<usize> = (0..m.leaves.len()).filter(|i| m.leaves[*i].optional).collect();
         for row in 0..b.value_rows {
-            let base: Vec<Val> = m.leaves.iter().enumerate().map(|(i, l)| pick(l.kind, i, row)).collect();
+            let base: Vec<Val> = m.leaves.iter().enumerate().map(|(i, l)| pick_leaf(l, i, row)).collect();
             let n_masks = 1u32 << optional.len();
             for mask in 0..n_masks {
                 if shape_rejected && mask != 0 && mask != n_masks - 1 {
@@ -492,11 +616,16 @@ fn shape_block(r: &Ctx, e: &Entry, op: Op, db: &[DbField], b: &Bounds) {
                 }
                 ser_case(r, &mut t, e, op, db, &p, &vals, false);
             }
+            if !shape_rejected && row < b.null_pattern_rows {
+                for vals in nested_ser_variants(m, &base) {
+                    ser_case(r, &mut t, e, op, db, &p, &vals, false);
+                }
+            }
         }
     } else {
         let bits = db.len().min(b.de_null_bits);
         for row in 0..b.value_rows {
-            let base: Vec<Cell> = db.iter().map(|f| Cell::Value(pick(f.kind, name_id(&f.name), row))).collect();
+            let base: Vec<Cell> = db.iter().map(|f| pick_cell(f, row)).collect();
             let n_masks = 1u32 << bits;
             for mask in 0..n_masks {
                 if shape_rejected && mask != 0 && mask != n_masks - 1 {
@@ -515,6 +644,14 @@ fn shape_block(r: &Ctx, e: &Entry, op: Op, db: &[DbField], b: &Bounds) {
                     }
                 }
                 de_case(r, &mut t, e, op, db, &p, &cells, false);
+            }
+            if !shape_rejected && row < b.null_pattern_rows {
+                for cells in nested_de_variants(db, &base) {
+                    de_case(r, &mut t, e, op, db, &p, &cells, false);
+                }
+            }
+            if op == Op::DeValue && !shape_rejected && row == 0 {
+                null_udt_case(r, &mut t, e, db, &p, false);
             }
             if op.target() == Target::Udt && !shape_rejected {
                 // the UDT value stops after `cut` cells (protocol: the remaining fields are null)
@@ -536,12 +673,33 @@ fn shape_block(r: &Ctx, e: &Entry, op: Op, db: &[DbField], b: &Bounds) {
     if nontrivial_shape {
         t.nontrivial = t.evals;
     }
+    let n = t.evals;
+    t.add(format!("evals|{}", e.name), n);
     t.flush(r.report);
+}
+
+/// SerializeRow::is_empty ("whether this row contains any values or not") of a row struct
+fn is_empty_check(r: &Report, e: &Entry) {
+    if let Some(f) = e.is_empty {
+        let vals: Vec<Val> = e.model.leaves.iter().enumerate().map(|(i, l)| pick_leaf(l, i, 0)).collect();
+        let want = e.model.leaves.iter().all(|l| l.skip);
+        r.eval(1);
+        r.counters.add(if want { "is_empty|expected-true" } else { "is_empty|expected-false" }, 1);
+        match vcore::catch(std::panic::AssertUnwindSafe(|| f(&vals))) {
+            Ok(got) if got == want => {}
+            Ok(got) => r.violation(&format!("ser-row:{}:is-empty", e.name), &format!("{}::is_empty() = {got}, but the struct serializes {} column(s)", e.name, e.model.leaves.iter().filter(|l| !l.skip).count()), json!({"struct": e.name, "op": "is-empty"})),
+            Err(p) => r.violation(&format!("ser-row:{}:panic", e.name), &format!("{}::is_empty() panicked: {p}", e.name), json!({"struct": e.name, "op": "is-empty"})),
+        }
+    }
 }
 
 fn replay(r: &Report, fam: &[Entry], case: &Value) {
     let name = case["struct"].as_str().unwrap_or("");
     let Some(e) = fam.iter().find(|e| e.name == name) else { vcore::machinery_error(&format!("replay: unknown struct {name}")) };
+    if case["op"].as_str() == Some("is-empty") {
+        is_empty_check(r, e);
+        return;
+    }
     let Some(op) = case["op"].as_str().and_then(Op::from_name) else { vcore::machinery_error("replay: unknown op") };
     let db = db_from_json(&case["db"]);
     let p = prepare(op.target(), &db);
@@ -552,8 +710,12 @@ fn replay(r: &Report, fam: &[Entry], case: &Value) {
         let vals: Vec<Val> = case["vals"].as_array().map(|a| a.iter().map(val_from_json).collect()).unwrap_or_default();
         ser_case(&cx, &mut t, e, op, &db, &p, &vals, true);
     } else {
-        let cells: Vec<Cell> = case["cells"].as_array().map(|a| a.iter().map(cell_from_json).collect()).unwrap_or_default();
-        de_case(&cx, &mut t, e, op, &db, &p, &cells, true);
+        if case["null_udt"].as_bool() == Some(true) {
+            null_udt_case(&cx, &mut t, e, &db, &p, true);
+        } else {
+            let cells: Vec<Cell> = case["cells"].as_array().map(|a| a.iter().map(cell_from_json).collect()).unwrap_or_default();
+            de_case(&cx, &mut t, e, op, &db, &p, &cells, true);
+        }
     }
     t.flush(r);
     sink.drain_into(r);
@@ -561,7 +723,7 @@ fn replay(r: &Report, fam: &[Entry], case: &Value) {
 
 /// The reference must reproduce the expectations pinned in the repo's own macros_tests.rs before it is trusted.
 fn reference_self_test(fam: &[Entry]) {
-    let f = |n: &str, k: Kind| DbField { name: n.into(), kind: k };
+    let f = |n: &str, k: Kind| DbField::leaf(n, k);
     // V08-like: derive_serialize_and_deserialize_value_loose_ordering: allow_missing field absent -> default
     let v08 = fam.iter().find(|e| e.name == "V08").unwrap_or_else(|| vcore::machinery_error("family lacks V08"));
     let db = [f("d", Kind::Boolean), f("a", Kind::Int)];
@@ -591,6 +753,9 @@ fn main() {
     let jobs = r.args.jobs;
     let only = r.args.extra_value("--struct").map(|s| s.to_string());
 
+    for e in &fam {
+        is_empty_check(&r, e);
+    }
     let t_gen = std::time::Instant::now();
     // work list: (entry index, op, shape)
     let mut work: Vec<(usize, Op, Vec<DbField>)> = Vec::new();
@@ -601,6 +766,7 @@ fn main() {
             Bounds {
                 shape: ShapeBounds {
                     one_extra_max_missing: n,
+                    two_extras_both_orders: thorough || n < 6,
                     two_extras_max_missing: if thorough { n } else if n <= 4 { n } else { 1 },
                     retype_all_perms: thorough || n <= 4,
                 },
@@ -644,7 +810,7 @@ fn main() {
     if outcome_classes < 8 {
         vcore::machinery_error("C16 harness collided on too few outcome classes");
     }
-    r.set_rule("E-ENUM. Per family struct and derive: every subset of its fields missing x every permutation of the rest x {0, 1 extra at every position, 2 extras at every position pair (quick, >4 fields: only with <=1 field missing)} + one field retyped + Rust-name-instead-of-rename / name-of-a-skipped-field / a repeated name as extra; serialization x 2|4 value rows x every null pattern of Option fields (quick: null patterns with the first value row) (+ round trip through the struct's own deserializer); deserialization x 2|4 value rows x null patterns of database cells (quick: <=2 nulls or all null, first 6 positions; thorough: every pattern of the first 8 positions) + every UDT truncation point. Oracle cqlref::binder from the attribute documentation. distinct_nontrivial = cases whose database list differs from the declared field list.");
+    r.set_rule("E-ENUM. Per family struct and derive: every subset of its fields missing x every permutation of the rest x {0, 1 extra at every position, 2 extras at every position pair (quick: >4-field structs get 2 extras only with <=1 field missing, 6-field structs only in the order x1,x2)} + one field retyped + Rust-name-instead-of-rename / name-of-a-skipped-field / a repeated name as extra; serialization x 2|4 value rows x every null pattern of Option fields (quick: null patterns with the first value row) (+ round trip through the struct's own deserializer); deserialization x 2|4 value rows x null patterns of database cells (quick: <=2 nulls or all null, first 6 positions; thorough: every pattern of the first 8 positions) + every UDT truncation point. Oracle cqlref::binder from the attribute documentation. distinct_nontrivial = cases whose database list differs from the declared field list.");
     r.set_exhaustive(true);
     r.sample(json!({"struct": fam[0].source, "op": "ser-value", "db": [["c","boolean"],["a","int"],["b","text"]], "expected": "cells emitted at database positions c,a,b; read back by name"}));
     if let Some(e) = fam.iter().find(|e| e.name == "V12") {
